@@ -11,6 +11,9 @@
    links <n> {<kind> <user> <internal> <setting> <speed>}*n              -> ok      (current link state)
    comp <idBase> <n> {<id> <prio> <link> <kind> <status|setting|speed> <value>}*n
                                                                          -> P link,field,value,prio ; ... | V link,field,value,prio ; ...   (companions; `error` = ValueError)
+   order <idBase> <n> {uctl as in comp}*n <nTank> <nCV> <nPumpInternal> <nValveInternal>
+                                                                         -> ids of `simulatorControls` in registration order (user k, tank 10000+i, cv 20000+i,
+                                                                            pump companion idBase+k, pump internal 30000+i, valve companion 2*idBase+k, valve internal 40000+i)
    track <n> {<link> <S|V|P>}*n                                            -> ok      (registered tracker targets)
    post <n> {<id> <prio> <link> <field> <value>}*n                       -> <changed 0|1> | user,internal,setting ; ...
    pre <first 0|1> <simTime> <n> {<id> <prio> <link> <field> <value> <back>}*n   -> <simTime'> <changed> | links...
@@ -166,6 +169,17 @@ def parseRowsL : Nat → List String → Option (List RowL)
 def showLinks (ls : Links) : String :=
   " ; ".intercalate (ls.map fun l => s!"{showRat l.user},{showRat l.internal},{showRat l.setting},{showRat l.speed}")
 
+def takeUCtls : Nat → List String → Option (List UCtl × List String)
+  | 0, rest => some ([], rest)
+  | n + 1, i :: p :: l :: k :: a :: v :: rest => do
+    let i ← i.toNat?; let p ← p.toNat?; let l ← l.toNat?; let k ← parseKind k; let v ← parseRat v
+    let a ← (match a with | "status" => some UAttr.status | "setting" => some .setting | "speed" => some .baseSpeed | _ => none)
+    let (r, rest') ← takeUCtls n rest
+    some (⟨i, p, l, k, a, v⟩ :: r, rest')
+  | _, _ => none
+
+def dummyCtls (base n : Nat) : List Ctl := (List.range n).map fun i => ⟨base + i, 0, ⟨0, .internal, 0⟩⟩
+
 def parseUCtls : Nat → List String → Option (List UCtl)
   | 0, [] => some []
   | n + 1, i :: p :: l :: k :: a :: v :: rest => do
@@ -285,6 +299,15 @@ def handle (d : DState) (line : String) : DState × String :=
       | some ls => (d, " ; ".intercalate ((tankControls t htol ls).map showTCtl))
       | none => (d, "bad-op")
     | _, _, _ => (d, "bad-op")
+  | "order" :: b :: n :: rest =>
+    match b.toNat?, n.toNat? >>= (takeUCtls · rest) with
+    | some b, some (us, [nt, nc, np, nv]) =>
+      match nt.toNat?, nc.toNat?, np.toNat?, nv.toNat? with
+      | some nt, some nc, some np, some nv =>
+        let all := simulatorControls b us (dummyCtls 10000 nt) (dummyCtls 20000 nc) (dummyCtls 30000 np) (dummyCtls 40000 nv)
+        (d, " ".intercalate (all.map fun c => toString c.id))
+      | _, _, _, _ => (d, "bad-op")
+    | _, _ => (d, "bad-op")
   | "comp" :: b :: n :: rest =>
     match b.toNat?, n.toNat? >>= (parseUCtls · rest) with
     | some b, some us =>
